@@ -128,7 +128,7 @@ def _check(case, r):
             elif phase == 'requested':
                 exp_f += 1
                 phase = 'failed'
-    exp_f += sum(1 for e in log if e[0] == 'ev' and e[1] == 'open_fail')
+    exp_f += sum(1 for e in log if e[0] == 'ev' and e[1] == 'open_end_fail')
     got_d, got_l, got_f = names.count('disconnected'), names.count('connection_lost'), names.count('connection_failed')
     if not (hangs or r['dead']) and (got_d, got_l, got_f) != (exp_d, exp_l, exp_f):
         out.append({'class': 'fanout_counts', 'detail': {'expected_D_L_F': [exp_d, exp_l, exp_f],
